@@ -666,8 +666,17 @@ impl<RW: QueueRW<T>, T> FutInnerRecv<RW, T> {
     /// Identical to InnerRecv::try_recv()
     #[inline(always)]
     pub fn try_recv(&self) -> Result<T, TryRecvError> {
+        // Only the handle itself can give its stream a second consumer, so a
+        // sole consumer stays one for the duration of the call and never pins
+        // a slot: an Empty answer has then freed nothing and the senders' wait
+        // list need not be taken (a receiver polling an empty queue would
+        // otherwise serialise on it with everybody else)
+        let sole = self.reader.is_single();
         let rval = self.reader.try_recv();
-        self.prod_wait.notify_all();
+        match rval {
+            Err(TryRecvError::Empty) if sole => {}
+            _ => self.prod_wait.notify_all(),
+        }
         rval
     }
 
